@@ -5,9 +5,9 @@ META = {
     "property_id": "C11",
     "technique": "Coq theorems on the port model (Announce fields = data sets, S1 update exact, grandmaster view) + executable oracle ok_C11 evaluated in Coq on implementation traces + trace correspondence",
     "category": "proof",
-    "text": "C11_main - for every valid set-up and EVERY valid event list the COMPLETE oracle ok_C11 accepts the model's own trace (emission, take-over of the parent's Announce with the path-trace rule, grandmaster view after a BMCA run that leaves no slave). Whole histories: C11_emission_main - for every valid set-up and every host-call sequence every Announce the model emits carries exactly the data sets held at emission (the emission conjunct of ok_C11, which ok_C11 implies: C11_oracle_implies_emission). Proved for all data sets: every field of an emitted Announce is the corresponding field of parentDS/currentDS/timePropertiesDS at emission (flags <-> time properties incl. leap59 precedence); an Announce from the parent with stepsRemoved 0..254 replaces the data sets by its contents with stepsRemoved+1; decision M1/M2 installs the own attributes with stepsRemoved 0. The history-level statement (every Announce in every history reflects the data sets the getters showed before the call; parent Announce => data sets after the call; grandmaster view after each BMCA run) is the executable oracle ok_C11 evaluated in Coq on the implementation's traces.",
+    "text": "C11_full_main - the complete oracle of the check, clauses (a)-(c) and clause (d) (a BMCA run that keeps the parent keeps stepsRemoved / parentDS / timePropertiesDS; C11_clause_d_main, Port/MainC11d.v), accepts the model's own trace for every valid set-up and every valid event list. C11_main - for every valid set-up and EVERY valid event list the COMPLETE oracle ok_C11 accepts the model's own trace (emission, take-over of the parent's Announce with the path-trace rule, grandmaster view after a BMCA run that leaves no slave). Whole histories: C11_emission_main - for every valid set-up and every host-call sequence every Announce the model emits carries exactly the data sets held at emission (the emission conjunct of ok_C11, which ok_C11 implies: C11_oracle_implies_emission). Proved for all data sets: every field of an emitted Announce is the corresponding field of parentDS/currentDS/timePropertiesDS at emission (flags <-> time properties incl. leap59 precedence); an Announce from the parent with stepsRemoved 0..254 replaces the data sets by its contents with stepsRemoved+1; decision M1/M2 installs the own attributes with stepsRemoved 0. The history-level statement (every Announce in every history reflects the data sets the getters showed before the call; parent Announce => data sets after the call; grandmaster view after each BMCA run) is the executable oracle ok_C11 evaluated in Coq on the implementation's traces.",
     "design_ref": "DESIGN.md section 6 (C11)",
-    "level_note": "Clause (d) of the oracle (ok_C11d: a BMCA run that leaves the slave port slave of the same parent does not change stepsRemoved / parentDS / timePropertiesDS, judged while the sequence ids of that master on that port have been strictly increasing in steps of at most 1000) is evaluated on traces only; C11_main is about clauses (a)-(c). Histories with sequence-id anomalies of the parent are not judged by (d): observation F27 (DESIGN 14.3, Example C11_observation_F27_flipflop). Theorems closed under the global context (MainC11.v, MainC11b.v). The fixed constants of the M1/M2 time properties (ptp_timescale = true, time source internal oscillator) are statime's choice and are part of the oracle.",
+    "level_note": "Clause (d) of the oracle (ok_C11d: a BMCA run that leaves the slave port slave of the same parent does not change stepsRemoved / parentDS / timePropertiesDS, is proved for every history as well (C11_clause_d_main, Port/MainC11d.v; C11_full_main = clauses (a)-(d)); the guard is: the sequence ids of that master on that port have moved forward by less than 2^15 in total. Histories with sequence-id anomalies of the parent are not judged by (d): observation F27 (DESIGN 14.3, Example C11_observation_F27_flipflop). Theorems closed under the global context (MainC11.v, MainC11b.v). The fixed constants of the M1/M2 time properties (ptp_timescale = true, time source internal oscillator) are statime's choice and are part of the oracle.",
 }
 
 S = portcheck.make(
